@@ -46,12 +46,17 @@ Record rentry := mkR { r_time : N; r_type : N; r_off : N }.
    None (NaN) | Some (integer part).  message_index is the position in the list. *)
 Record ientry := mkI { i_time : option N; i_type : N; i_off : N }.
 
+(* FileIndex._from_raw / _to_raw.  _to_raw stores "no time" for NaN and for a time that does not fit below
+   TIME_INVALID (the same rule as the indexer); [to_raw_legacy] is the code before that repair: a bare
+   astype('<u4'), which wraps modulo 2^32 in numpy's structured cast on x86-64 (undefined in C). *)
 Definition u4 (t : N) : N := N.modulo t (2 ^ 32).
+Definition clamp_u4 (t : N) : N := if N.leb TIME_INVALID t then TIME_INVALID else t.
 
-(* FileIndex._from_raw / _to_raw *)
 Definition from_raw (r : rentry) : ientry :=
   mkI (if N.eqb (r_time r) TIME_INVALID then None else Some (r_time r)) (r_type r) (r_off r).
 Definition to_raw (e : ientry) : rentry :=
+  mkR (match i_time e with None => TIME_INVALID | Some t => clamp_u4 t end) (i_type e) (i_off e).
+Definition to_raw_legacy (e : ientry) : rentry :=
   mkR (match i_time e with None => TIME_INVALID | Some t => u4 t end) (i_type e) (i_off e).
 
 Definition frame_type (bs : list N) : N := h_type (parse_header (firstn HEADER_SIZE bs)).
@@ -63,9 +68,12 @@ Definition frame_type (bs : list N) : N := h_type (parse_header (firstn HEADER_S
 Section Index.
   Variable p1 : list N -> option N.
 
-  (* fast_indexer: p1_time_raw = INVALID if isnan else int(seconds), stored in a u4 column *)
+  (* fast_indexer: p1_time_raw = INVALID if isnan(seconds) or int(seconds) >= INVALID else int(seconds),
+     stored in a u4 column (the rule of the C08 repair; before it a stamp >= 2^32 raised OverflowError) *)
+  Definition indexer_time (t : option N) : N :=
+    match t with None => TIME_INVALID | Some t => clamp_u4 t end.
   Definition indexer_raw (o : nat) (bs : list N) : rentry :=
-    mkR (match p1 bs with None => TIME_INVALID | Some t => t end) (frame_type bs) (N.of_nat o).
+    mkR (indexer_time (p1 bs)) (frame_type bs) (N.of_nat o).
 
   (* what fast_generate_index returns for a data file: FileIndex(data=_from_raw(index_raw)) *)
   Definition fresh_raw (d : list N) : list rentry := map (fun f => indexer_raw (fst f) (snd f)) (file_frames d).
